@@ -57,3 +57,119 @@ package keep_fields
 //@     preserves Plugin, []string
 //@   callee Suicide()
 //@     preserves Plugin, []string
+
+// Do: an object event is walked exactly once, from the root of the configured path
+// tree, at the event's own root node and at depth 0 (so that the root level is always
+// cleaned: depth 0 deletes its list even when nothing was kept); an event whose root is
+// not an object is left alone; Do itself never looks up or deletes anything.  What the
+// walk needs of the plugin is what Start leaves behind - as many buffers as the tree is
+// high, all of them empty - and Do hands the buffers back empty, in the same number, for
+// the next event.  The event always passes.
+
+//@ func (*Plugin).Do
+//@   ghost isobj bool = false
+//@   ghost nwalk int = 0
+//@   requires uf_height(ref(p.parsedFieldsRoot.children)) >= 0 && uf_height(ref(p.parsedFieldsRoot.children)) <= len(p.fieldsDepthSlice)
+//@   requires len(p.parsedFieldsRoot.children) != 0 ==> uf_height(ref(p.parsedFieldsRoot.children)) >= 1
+//@   requires forall k :: 0 <= k && k < len(p.fieldsDepthSlice) ==> len(p.fieldsDepthSlice[k]) == 0
+//@   ensures result == pipeline.ActionPass
+//@   ensures isobj ==> nwalk == 1
+//@   ensures !isobj ==> nwalk == 0
+//@   ensures len(p.fieldsDepthSlice) == old(len(p.fieldsDepthSlice))
+//@   ensures forall k :: 0 <= k && k < len(p.fieldsDepthSlice) ==> len(p.fieldsDepthSlice[k]) == 0
+//@   callee IsObject() (r)
+//@     requires recv == event.Root.Node && nwalk == 0
+//@     pure
+//@     set isobj := r
+//@   callee traverseFieldsTree(f, e, d) (r)
+//@     requires isobj && nwalk == 0 && d == 0 && e == event.Root.Node && f == p.parsedFieldsRoot
+//@     set nwalk := nwalk + 1
+//@   callee Dig(path)
+//@     requires false
+//@   callee Suicide()
+//@     requires false
+
+// newFieldPathNode: every path-tree node gets a map of its own (never a shared one).
+
+//@ func newFieldPathNode
+//@   pure
+//@   ensures fresh(result.children)
+
+// Start (C18): what Do works with is exactly what the configuration says.
+//  * path set: cfg.ParseNestedFields is called once, with the configured list and nothing else;
+//    its result is stored unchanged (same slice: nothing dropped, added, re-ordered afterwards);
+//    a list that does not parse (empty list, empty selector) stops the process.
+//  * path tree (Go maps are not modelled, so these are oracles on the single steps): every
+//    path is walked from the one root that is also the root Do uses (groot: the first node made,
+//    still p.parsedFieldsRoot on return); every lookup is keyed by the current element of the
+//    current path (gkeys); a node is made and inserted only after a miss - an existing subtree
+//    is never replaced -, under that same element, and it is the node just made, fresh; after
+//    each element the walk stands on the child found or inserted (gchild), and a miss was
+//    followed by an insert (gupd; the one source anchor of this contract, matched approximately).
+//  * buffers: at least as many as the longest path has elements (what traverseFieldsTree indexes
+//    by depth), a fresh outer slice, every buffer empty and either nil or allocated during Start (not
+//    memory that existed before, such as the configuration's).  Preallocation itself is not demanded: append
+//    makes a missing buffer on first use.
+//  * frame: the plugin's own five fields and memory allocated here; the configuration object
+//    and the parsed paths are not written.
+// Not stated: pairwise separation of the buffers.  It holds (one make per iteration) but is
+// not inductive in this contract language: the loop keeps no handle on the buffer of the
+// previous iteration and there is no term for "allocated before now" in an invariant.
+// Not derivable: height of the tree == longest path (maps not modelled); Do requires it.
+
+//@ func (*Plugin).Start
+//@   option allow-exit yes
+//@   ghost nparse int = 0
+//@   ghost gref int = 0
+//@   ghost goff int = 0
+//@   ghost glen int = 0
+//@   ghost gerr bool = false
+//@   ghost gok bool = false
+//@   ghost gnew bool = false
+//@   ghost gupd bool = false
+//@   ghost gchild int = 0
+//@   ghost gkeys bool = true
+//@   ghost groot int = 0
+//@   ghost nnew int = 0
+//@   requires typeis(config, "*github.com/ozontech/file.d/plugin/action/keep_fields.Config") && params != nil
+//@   modifies p.logger, p.config, p.fieldPaths, p.parsedFieldsRoot, p.fieldsDepthSlice
+//@   ensures ref(p.config) == config.pay && p.config != nil
+//@   ensures nparse == 1 && !gerr
+//@   ensures ref(p.fieldPaths) == gref && off(p.fieldPaths) == goff && len(p.fieldPaths) == glen
+//@   ensures gkeys && freshin(p.parsedFieldsRoot.children) && ref(p.parsedFieldsRoot.children) == groot
+//@   ensures forall k :: 0 <= k && k < len(p.fieldPaths) ==> len(p.fieldPaths[k]) <= len(p.fieldsDepthSlice)
+//@   ensures freshin(p.fieldsDepthSlice) && forall a :: 0 <= a && a < len(p.fieldsDepthSlice) ==> len(p.fieldsDepthSlice[a]) == 0 && (isnil(p.fieldsDepthSlice[a]) || freshin(p.fieldsDepthSlice[a]))
+//@   loop 1 invariant -1 <= rangeindex && rangeindex < len(p.fieldPaths) && fieldMaxDepth >= 0 && gkeys && nnew >= 1 && ref(p.parsedFieldsRoot.children) == groot
+//@   loop 1 invariant forall k :: 0 <= k && k <= rangeindex ==> len(p.fieldPaths[k]) <= fieldMaxDepth
+//@   loop 2 invariant -1 <= rangeindex#2 && rangeindex#2 < len(fieldPath) && gkeys && nnew >= 1 && ref(p.parsedFieldsRoot.children) == groot
+//@   loop 2 invariant rangeindex#2 < 0 ==> ref(curNode.children) == groot
+//@   loop 2 invariant rangeindex#2 >= 0 ==> ref(curNode.children) == gchild && (gok || gupd)
+//@   loop 3 invariant 0 <= i && len(p.fieldsDepthSlice) == fieldMaxDepth && freshin(p.fieldsDepthSlice)
+//@   loop 3 invariant forall k :: 0 <= k && k < len(p.fieldPaths) ==> len(p.fieldPaths[k]) <= fieldMaxDepth
+//@   loop 3 invariant forall a :: 0 <= a && a < len(p.fieldsDepthSlice) ==> len(p.fieldsDepthSlice[a]) == 0 && (isnil(p.fieldsDepthSlice[a]) || freshin(p.fieldsDepthSlice[a]))
+//@   setat "curNode.children[field] = nextNode" gupd := true
+//@   callee ParseNestedFields(f) (r, e)
+//@     requires nparse == 0 && ref(p.config) == config.pay && f == p.config.Fields
+//@     pure
+//@     set nparse := nparse + 1
+//@     set gref := ref(r)
+//@     set goff := off(r)
+//@     set glen := len(r)
+//@     set gerr := e != nil
+//@   callee maplookup:children(k) (v, ok)
+//@     set gok := ok
+//@     set gnew := false
+//@     set gupd := false
+//@     set gchild := ref(v.children)
+//@     set gkeys := gkeys && k == fieldPath[rangeindex#2]
+//@   callee newFieldPathNode() (r)
+//@     requires !gok
+//@     set groot := ite(nnew == 0, ref(r.children), groot)
+//@     set nnew := nnew + 1
+//@     set gnew := true
+//@     set gchild := ref(r.children)
+//@   callee mapupdate:children(k, v)
+//@     requires !gok && gnew && ref(v.children) == gchild && freshin(v.children)
+//@     requires k == fieldPath[rangeindex#2]
+//@   callee Desugar() (l)
+//@     pure
